@@ -39,7 +39,7 @@ def bounds(ctx):
               MaxSteps=2 if q else 3), INV, PROP, ACTIONS),
         ("StepCtl[C13 with refusals, fixed step]",
          dict(Adaptives=[True, False], Screenings=[True], Windows=[1], RetrySet=[1], MulExps=[1], Deltas=[0, 1024],
-              MaxIters=[1, 2], TolExps=[7], AlphaExps=[0], BetaQs=[2], Kicks=[1, 3], MaxSteps=3, MaxRefusals=2),
+              MaxIters=[1, 2], TolExps=[7], AlphaExps=[1], BetaQs=[4], Kicks=[1, 3], MaxSteps=3, MaxRefusals=2),
          INV + sc.INV_C12, PROP + sc.PROP_C12, ACTIONS + ["Refuse"]),
         ("StepCtl[C13 screening disabled]",
          dict(Adaptives=[True, False], Screenings=[False], Windows=[1], RetrySet=[1], MulExps=[1], Deltas=[0, 1024],
@@ -51,14 +51,17 @@ def bounds(ctx):
          dict(scr, Thermals=[True], MaxThermal=2, MaxIters=[1, 2], TolExps=[7], AlphaExps=[0, 1], BetaQs=[2, 4], Kicks=[1, 2, 3],
               MaxSteps=2), INV, PROP, ACTIONS + ["StageRestart"]))
     small = dict(scr, MaxIters=[1, 2], TolExps=[7], AlphaExps=[0, 1], BetaQs=[2, 4], Kicks=[1, 2, 3], MaxSteps=2)
-    canaries = [("MTestPrev", small, "ConvergedStops"), ("MTestPrev", small, "AcceptedStepConverged"),
+    # the old exit test (error on the increment): TLC's counterexample is the zero crossing with momentum — the kernel
+    # output equals the current iterate, the increment is zero, the step is accepted and returns iterate + (1 - beta) v
+    canaries = [("MErrOnIncrement", small, "AcceptedIterateIsSelfConsistent"), ("MErrOnIncrement", small, "ErrorIsRelativeMismatch"),
+                ("MTestPrev", small, "ConvergedStops"), ("MTestPrev", small, "AcceptedStepConverged"),
                 ("MReturnUnconverged", small, "AcceptedStepConverged"), ("MReturnUnconverged", small, "NonConvergenceRaises")]
     exports = [
         ("screening", dict(scr, MaxIters=[1, 2] if q else [1, 2, 3], TolExps=[7], AlphaExps=[0, 1], BetaQs=[2, 4],
                            Kicks=[1, 2, 3, 5] if not q else [1, 2, 3], MaxSteps=2)),
         ("screening beta 1/4", dict(scr, MaxIters=[2], TolExps=[10], AlphaExps=[2], BetaQs=[1, 3], Kicks=[1, 3, 4], MaxSteps=2)),
         ("screening with refusals", dict(Adaptives=[True, False], Screenings=[True], Windows=[1], RetrySet=[1], MulExps=[1],
-                                         Deltas=[0, 1024], MaxIters=[1], TolExps=[7], AlphaExps=[0], BetaQs=[2], Kicks=[1, 3],
+                                         Deltas=[0, 1024], MaxIters=[1], TolExps=[7], AlphaExps=[1], BetaQs=[4], Kicks=[1, 3],
                                          MaxSteps=2 if q else 3, MaxRefusals=2)),
         ("no screening", dict(Adaptives=[True, False], Screenings=[False], Deltas=[0, 1024], MaxSteps=3, MaxRefusals=1)),
         ("thermalisation with screening", dict(scr, Thermals=[True], MaxThermal=2, MaxIters=[1], TolExps=[7], AlphaExps=[0, 1],
